@@ -139,4 +139,16 @@ theorem scotland_okC02 (p : Nat) (ctx : Ctx) (s0 t : St Int) (h0 : Init (fixedAr
     okC02Gregory (fixedArith p) ctx (fun k => k) (t.logAct (fixedArith p) "end" "Count Complete" []).acts.reverse = true :=
   okC02_of_inv p ctx _ hn hrat (scotland_fixed p s0 t h0 h).1 (scotland_lower_fixed p s0 t h0 hnoW h)
 
+/-- non-vacuity: the two-candidate profile of `Props/C02` meets every hypothesis of `wigm_every_configuration_fixed`
+    (3 ballots, 1 seat, nobody withdrawn), so the theorem speaks about real counts -/
+example : (∀ b ∈ C02.tiny.ballots, ∀ c ∈ C02.tiny.cands, c.st = .withdrawn → b.top ≠ some c.cid)
+    ∧ C02.tiny.seats < C02.tiny.nballots ∧ C02.tiny.seats ≤ nHop C02.tiny ∧ C02.tiny.round = 0 := by
+  refine ⟨?_, by decide, by decide, rfl⟩
+  intro b _ c hc hw
+  simp [C02.tiny] at hc
+  rcases hc with rfl | rfl <;> simp at hw
+
+/-- ... and the count of it under wigm-prf-batch returns with the crash flag down -/
+example : ((wigmCount (fixedArith 4) { prf := true, prfBatch := true } C02.tiny).map (·.crash.isNone)) = some true := by decide
+
 end Droop.C02
